@@ -1625,3 +1625,36 @@ Proof.
   exists flat_with_outlier. split; [split; reflexivity|]. split; [discriminate|].
   split; [reflexivity|]. exact (proj2 sigma_clip_empties_witness).
 Qed.
+
+(* convergence: an iteration that removes nothing is a fixpoint, every other one shortens the
+   lists, so more iterations than samples change nothing *)
+Lemma filter_length_eq_all {A} (p : A -> bool) l :
+  length (filter p l) = length l -> forall x, In x l -> p x = true.
+Proof.
+  induction l as [|y l IH]; intros H x Hx; [destruct Hx|].
+  cbn [filter] in H. destruct (p y) eqn:E.
+  - cbn [length] in H. injection H as H. destruct Hx as [<-|Hx]; [exact E|apply IH; assumption].
+  - pose proof (filter_length_le p l). cbn [length] in H. lia.
+Qed.
+Lemma iter_sigma_clip_same_length sclip st :
+  store_wf st -> length (s_intens (iter_sigma_clip sclip st)) = length (s_intens st) ->
+  iter_sigma_clip sclip st = st.
+Proof.
+  intros [A B] H. rewrite iter_sigma_clip_intens in H by (split; assumption).
+  unfold iter_sigma_clip. rewrite clip_filter_all; [destruct st; reflexivity|exact A|exact B|].
+  apply filter_length_eq_all. exact H.
+Qed.
+Lemma iter_n_converges sclip n : forall st,
+  store_wf st -> (length (s_intens st) <= n)%nat ->
+  iter_sigma_clip sclip (iter_n n sclip st) = iter_n n sclip st.
+Proof.
+  induction n as [|n IH]; intros st W L.
+  - cbn [iter_n]. destruct W as [A B]. destruct st as [a r v]. cbn [s_angles s_radii s_intens] in *.
+    destruct v; [|cbn in L; lia]. destruct a; [|discriminate]. destruct r; [|discriminate]. reflexivity.
+  - cbn [iter_n]. pose proof (iter_sigma_clip_length_le sclip st W) as Hle.
+    destruct (Nat.eq_dec (length (s_intens (iter_sigma_clip sclip st))) (length (s_intens st))) as [E|N].
+    + rewrite (iter_sigma_clip_same_length sclip st W E).
+      rewrite (iter_n_fixpoint n sclip st (iter_sigma_clip_same_length sclip st W E)).
+      apply (iter_sigma_clip_same_length sclip st W E).
+    + apply IH; [apply iter_sigma_clip_wf, W|lia].
+Qed.
